@@ -209,15 +209,16 @@ def _parse_directive_options(
             options_block = content
             content = ""
         options_block = dedent(options_block)
-    elif content.lstrip().startswith(":") and not content.lstrip().startswith(":::"):
+    elif re.match(r"[ \t]*:(?!::)", content):
+        # only indentation is skipped: a blank (or NBSP-led) first line starts the body
         content_lines = split_lines(content)
         yaml_lines = []
         while content_lines:
-            first = content_lines[0].lstrip()
+            first = content_lines[0].lstrip(" \t")
             # a line starting with ``:::`` opens a nested colon fence, it is not an option
             if not first.startswith(":") or first.startswith(":::"):
                 break
-            yaml_lines.append(content_lines.pop(0).lstrip()[1:])
+            yaml_lines.append(content_lines.pop(0).lstrip(" \t")[1:])
         # terminate every line, as in a ``---`` block (``|`` values end in a line break)
         options_block = "".join(ln + "\n" for ln in yaml_lines)
         # keep every line terminated, so that no (blank) line is lost when re-splitting
